@@ -649,12 +649,15 @@ static void AskImpl(Impls & I, Child & c, const std::string & cppHex, const std:
 struct VecResult {std::string cppBytes; MessageRef msg; int o[6]; Strs notes; Strs viol;};   // o: mini_u mini_b micro_u micro_b py_u py_b
 
 // allow[k] < 0: ask and record (random direction); 0: outside the repertoire, do not ask; 1: inside, a disagreement is a violation
-static void DoVector(Impls & I, const mj::Value & content, const std::string * specBytes, int64_t specZ, const int * allow, VecResult & res)
+// script: the (possibly not append-only) API script that leaves the content; NULL: plain Add calls in content order
+static void DoVector(Impls & I, const mj::Value & content, const mj::Value * script, const std::string * specBytes, int64_t specZ, const int * allow, VecResult & res)
 {
    g_sawNonFlat = false;
-   res.msg = BuildScript(content);
+   const uint32 var = g_variant;
+   res.msg = BuildScript(script ? *script : content);
    if (res.msg() == NULL) {res.viol.push_back("the C++ API refuses to build the content"); return;}
-   MessageRef twin = BuildScript(content);
+   g_variant = var;
+   MessageRef twin = BuildScript(script ? *script : content);
    CheckState(*res.msg(), twin(), specBytes, specZ, res.cppBytes, res.viol);
    I.comparisons += specBytes ? 3 : 2;
    if (res.viol.size() > 0) return;
@@ -718,7 +721,7 @@ static int X08Vec(int argc, char ** argv)
    Impls I; I.Setup(argv+5);
    const std::string tol = (argc > 9) ? argv[9] : "";                 // ids of the open known findings to tolerate, e.g. "F38,F39"
    const bool tol38 = (tol.find("F38") != std::string::npos), tol39 = (tol.find("F39") != std::string::npos);
-   uint64_t known38 = 0, known39 = 0;
+   uint64_t known38 = 0, known39 = 0, nDetour = 0;
    Rng slice(12345); g_sliceRng = &slice;
    uint64_t nVec = 0, nFrames = 0, asked[6] = {0,0,0,0,0,0}, skipped[6] = {0,0,0,0,0,0};
    std::set<std::string> distinct;
@@ -736,7 +739,8 @@ static int X08Vec(int argc, char ** argv)
       const int allow[6] = {1, 1, t38 ? -1 : 1, 1, py, pyn};
       for (int k=0; k<6; k++) {if (allow[k]) asked[k]++; else skipped[k]++;}
       const std::string specB = BytesOf(v["b"]);
-      VecResult res; DoVector(I, v["m"], &specB, v["z"].i(), allow, res);
+      if (v["d"].i() > 0) nDetour++;
+      VecResult res; DoVector(I, v["m"], v.has("s") ? &v["s"] : NULL, &specB, v["z"].i(), allow, res);
       distinct.insert(res.cppBytes);
       if ((t38)&&(res.o[2] == 0)) known38++;
       if ((t39)&&((res.o[4] == 0)||(res.o[5] == 0))) known39++;
@@ -751,7 +755,7 @@ static int X08Vec(int argc, char ** argv)
    if (known38) ReportLine(mj::Value::Obj().set("known", mj::Value::Str("F38")).set("times", mj::Value::Int((int64_t) known38)).set("text", mj::Value::Str("the micro reader cannot read a zero-length raw item that is the last item of its field (UMFindData returns CB_ERROR)")));
    if (known39) ReportLine(mj::Value::Obj().set("known", mj::Value::Str("F39")).set("times", mj::Value::Int((int64_t) known39)).set("text", mj::Value::Str("message.py writes a wrong length for a sub-Message that has a non-ASCII field name (FlattenedSize() counts characters, Flatten() writes UTF-8 bytes)")));
    ReportLine(mj::Value::Obj().set("summary", mj::Value::Bool(true)).set("vectors", mj::Value::Int((int64_t) nVec)).set("frame_batches", mj::Value::Int((int64_t) nFrames)).set("comparisons", mj::Value::Int((int64_t) I.comparisons))
-              .set("asked", a).set("outside_repertoire", s).set("distinct_encodings", mj::Value::Int((int64_t) distinct.size()))
+              .set("built_by_a_detour", mj::Value::Int((int64_t) nDetour)).set("asked", a).set("outside_repertoire", s).set("distinct_encodings", mj::Value::Int((int64_t) distinct.size()))
               .set("helper_restarts", mj::Value::Int(I.mini.restarts + I.micro.restarts + I.py.restarts)));
    return 0;
 }
@@ -781,6 +785,36 @@ static mj::Value RandContent(Rng & R, int depth, bool utf8, bool noSNaN, bool as
    return c;
 }
 
+// An API script that leaves exactly the content but is not append-only: per field, at random, plain Adds / Add the tail then Prepend the head(s) /
+// first in first out behind some junk / junk overwritten by Replace / shrink to one item and regrow / Prepends only.  Sub-Messages are built the same way.
+// (The specification checks Build(script) = content on every recorded line, so this generator need not be trusted.)
+static mj::Value MakeDetour(Rng & R, const mj::Value & c)
+{
+   mj::Value st = mj::Value::Arr();
+   const mj::Value & fs = c["fields"];
+   for (size_t f=0; f<fs.a.size(); f++)
+   {
+      const mj::Value & nm = fs.a[f]["name"]; const mj::Value & tc = fs.a[f]["type"]; const mj::Value & its = fs.a[f]["items"];
+      const bool isMsg = (W32(tc) == B_MESSAGE_TYPE);
+      const size_t n = its.a.size();
+      std::vector<mj::Value> val; for (size_t j=0; j<n; j++) val.push_back(isMsg ? MakeDetour(R, its.a[j]) : its.a[j]);
+#define ST_ADD(J)       st.push(mj::Value::Obj().set("op", mj::Value::Str("Add")).set("n", nm).set("t", tc).set("v", val[J]))
+#define ST_PRE(J)       st.push(mj::Value::Obj().set("op", mj::Value::Str("Prepend")).set("n", nm).set("t", tc).set("v", val[J]))
+#define ST_REM(I)       st.push(mj::Value::Obj().set("op", mj::Value::Str("Remove")).set("n", nm).set("i", mj::Value::Int((int64_t)(I))))
+#define ST_REP(I, J, A) st.push(mj::Value::Obj().set("op", mj::Value::Str("Replace")).set("n", nm).set("t", tc).set("v", val[J]).set("i", mj::Value::Int((int64_t)(I))).set("a", mj::Value::Bool(A)))
+      switch(R(7))
+      {
+         case 0: case 1: for (size_t j=0; j<n; j++) ST_ADD(j); break;
+         case 2: {const size_t h = 1 + R((uint32) muscleMin(n, (size_t) 4)); for (size_t j=h; j<n; j++) ST_ADD(j); for (size_t j=h; j>0; j--) ST_PRE(j-1);} break;          // prepend the first h items onto the rest
+         case 3: {const size_t junk = 1 + R(5), k = (n + 1) / 2; for (size_t j=0; j<junk; j++) ST_ADD(R((uint32) n)); for (size_t j=0; j<k; j++) ST_ADD(j); for (size_t j=0; j<junk; j++) ST_REM(0); for (size_t j=k; j<n; j++) ST_ADD(j);} break;
+         case 4: {for (size_t j=0; j+1<n; j++) ST_ADD(R((uint32) n)); for (size_t j=0; j+1<n; j++) ST_REP(j, j, false); ST_REP(n-1, n-1, true);} break;
+         case 5: {const size_t junk = 1 + R(4); ST_ADD(0); for (size_t j=0; j<junk; j++) ST_ADD(R((uint32) n)); for (size_t j=junk; j>0; j--) ST_REM(R(2) ? j : 1); for (size_t j=1; j<n; j++) ST_ADD(j);} break;
+         default: for (size_t j=n; j>0; j--) ST_PRE(j-1); break;
+      }
+   }
+   return mj::Value::Obj().set("w", c["what"]).set("s", st);
+}
+
 static int X08Gen(int argc, char ** argv)
 {
    if (argc < 10) return 2;
@@ -800,14 +834,15 @@ static int X08Gen(int argc, char ** argv)
       alarm(60);
       const uint32 mode = R(10);                      // 0-1: any bytes in strings; 2-3: UTF-8 but any float pattern; else the repertoire of every implementation
       const mj::Value content = RandContent(R, 0, mode >= 2, mode >= 4);
+      const mj::Value script = MakeDetour(R, content);
       const int allow[6] = {-1, -1, -1, -1, -1, -1};
-      VecResult res; DoVector(I, content, NULL, -1, allow, res);
+      VecResult res; DoVector(I, content, &script, NULL, -1, allow, res);
       distinct.insert(res.cppBytes); bytes += res.cppBytes.size();
       mj::Value o = mj::Value::Obj();
       for (int k=0; k<6; k++) {o.set(keys[k], mj::Value::Int(res.o[k])); if (res.o[k] == 1) agree[k]++; else differ[k]++;}
       if (res.viol.empty())
       {
-         std::string ln = mj::ToString(mj::Value::Obj().set("op", mj::Value::Str("Vec")).set("id", mj::Value::Int(i)).set("m", content).set("b", ArrOf(res.cppBytes)).set("z", mj::Value::Int((int64_t) res.msg()->FlattenedSize())).set("o", o).set("notes", StrArr(res.notes)));
+         std::string ln = mj::ToString(mj::Value::Obj().set("op", mj::Value::Str("Vec")).set("id", mj::Value::Int(i)).set("m", content).set("s", script).set("b", ArrOf(res.cppBytes)).set("z", mj::Value::Int((int64_t) res.msg()->FlattenedSize())).set("o", o).set("notes", StrArr(res.notes)));
          ln += '\n'; fputs(ln.c_str(), tr);
          batch.push_back(res.msg); batchBytes.push_back(res.cppBytes); {std::string t; ContentText(content, t); batchTexts.push_back(t);}
          if (batch.size() >= 3) {DoFrames(I, batch, batchBytes, batchTexts, tr, res.viol, nFrames); batch.clear(); batchBytes.clear(); batchTexts.clear();}
@@ -837,12 +872,13 @@ static int PyEcho(int argc, char ** argv)
    if (s() == NULL) {ReportLine(mj::Value::Obj().set("summary", mj::Value::Bool(true)).set("skipped", mj::Value::Str("cannot connect to the Python transceiver on 127.0.0.1"))); return 0;}
    (void) SetSocketBlockingEnabled(s, false); (void) SetSocketNaglesAlgorithmEnabled(s, false);
    MessageIOGateway gw; gw.SetDataIO(DataIORef(new TCPSocketDataIO(s, false))); QueueGatewayMessageReceiver q;
-   Strs sent, got; std::vector<mj::Value> contents; uint64_t bytes = 0;
+   Strs sent, got; std::vector<mj::Value> contents, scripts; uint64_t bytes = 0;
    for (uint32 i=0; i<N; i++)
    {
       const mj::Value c = RandContent(R, 0, true, true, asciiSub);     // the repertoire of message.py; TLC checks Common("python", m) on the logged contents
-      MessageRef m = BuildScript(c); if (m() == NULL) return 2;
-      contents.push_back(c); sent.push_back(FlatPlain(*m())); bytes += sent.back().size();
+      const mj::Value sc = MakeDetour(R, c);
+      MessageRef m = BuildScript(sc); if (m() == NULL) return 2;
+      contents.push_back(c); scripts.push_back(sc); sent.push_back(FlatPlain(*m())); bytes += sent.back().size();
       if (gw.AddOutgoingMessage(m).IsError()) return 2;
    }
    const uint64 deadline = GetRunTime64() + SecondsToMicros(150);
@@ -858,7 +894,7 @@ static int PyEcho(int argc, char ** argv)
    for (size_t i=0; i<sent.size(); i++)
    {
       const bool eq = (i < got.size())&&(got[i] == sent[i]); if (eq) same++;
-      std::string ln = mj::ToString(mj::Value::Obj().set("op", mj::Value::Str("PyEcho")).set("m", contents[i]).set("b", ArrOf(sent[i])).set("same", mj::Value::Int(eq ? 1 : 0))); ln += '\n'; fputs(ln.c_str(), tr);
+      std::string ln = mj::ToString(mj::Value::Obj().set("op", mj::Value::Str("PyEcho")).set("m", contents[i]).set("s", scripts[i]).set("b", ArrOf(sent[i])).set("same", mj::Value::Int(eq ? 1 : 0))); ln += '\n'; fputs(ln.c_str(), tr);
       if ((eq == false)&&(viol.size() < 3)) {char tmp[200]; snprintf(tmp, sizeof(tmp), "Message %zu of %zu sent to the Python transceiver %s", i, sent.size(), (i < got.size()) ? "comes back with other bytes" : (ioError ? "is not echoed: the connection broke" : "is not echoed within 150 s")); viol.push_back(tmp);}
    }
    fclose(tr);
